@@ -329,15 +329,33 @@ def woff_discriminator(ctx, repo):
     m = repo.mod("ttLib/sfnt.py")
     enc = m.func("WOFFDirectoryEntry.encodeData")
     dec = m.func("WOFFDirectoryEntry.decodeData")
-    rd = [norm(n.test) for n in walk_no_nested(dec.node) if isinstance(n, ast.If)]
-    ok = rd[:1] == ["self.length == self.origLength"]
-    ctx.ob("WOFF-RAW", dec.where, f"reader: raw iff {rd[:1]}", ok)
-    raw_if = [n for n in walk_no_nested(enc.node) if isinstance(n, ast.If) and any(isinstance(s, ast.Assign) and norm(s.targets[0]) == "rawData" and norm(s.value) == "data" for s in n.body)]
-    ok = bool(raw_if) and norm(raw_if[0].test) == "self.uncompressed or len(compressedData) >= self.origLength"
-    ctx.ob("WOFF-RAW", enc.where, f"writer: stored raw when `{norm(raw_if[0].test) if raw_if else None}` (>= keeps equal-size tables raw)", ok, "" if ok else "a table whose compressed size equals its size is written compressed but read back as raw bytes")
-    ln = [norm(s.value) for n in raw_if for s in n.body if isinstance(s, ast.Assign) and norm(s.targets[0]) == "self.length"] + [norm(s.value) for n in raw_if for s in n.orelse if isinstance(s, ast.Assign) and norm(s.targets[0]) == "self.length"]
-    ok = ln == ["self.origLength", "len(rawData)"]
-    ctx.ob("WOFF-RAW", enc.where, f"length fields: raw -> origLength, compressed -> len(rawData): {ln}", ok)
+    # stated on the conditions that hold where each kind of data leaves the function (arm order, early returns, local
+    # aliases and complemented comparisons do not matter)
+    from ..cfg import CFG, implied_atoms
+    from ..core import inline_locals
+
+    def il(fn, e):
+        return norm(inline_locals(fn.node, e))
+
+    gd = CFG(dec.node)
+    raw_out = [st for st in walk_no_nested(dec.node) if (isinstance(st, ast.Return) and st.value is not None and il(dec, st.value) == "rawData") or (isinstance(st, ast.Assign) and norm(st.targets[0]) == "data" and norm(st.value) == "rawData")]
+    ok = bool(raw_out) and all(any(pol and isinstance(t, ast.Compare) and isinstance(t.ops[0], ast.Eq) and {il(dec, t.left), il(dec, t.comparators[0])} == {"self.length", "self.origLength"} for t, pol in implied_atoms(gd, st)) for st in raw_out)
+    ctx.ob("WOFF-RAW", dec.where, "reader: the stored bytes are returned as they are exactly when length == origLength", ok)
+    ge = CFG(enc.node)
+    comp_out = [st for st in walk_no_nested(enc.node) if (isinstance(st, ast.Return) and st.value is not None and "compress" in il(enc, st.value).lower() and il(enc, st.value) != "data") or (isinstance(st, ast.Assign) and norm(st.targets[0]) == "rawData" and norm(st.value) == "compressedData")]
+
+    def strictly_smaller(st):
+        for t, pol in implied_atoms(ge, st):
+            if isinstance(t, ast.Compare) and len(t.ops) == 1 and "len(compressedData)" == norm(t.left) and il(enc, t.comparators[0]) in ("len(data)", "self.origLength"):
+                if pol and isinstance(t.ops[0], ast.Lt) or (not pol) and isinstance(t.ops[0], ast.GtE):
+                    return True
+        return False
+
+    ok = bool(comp_out) and all(strictly_smaller(st) for st in comp_out)
+    ctx.ob("WOFF-RAW", enc.where, "writer: compressed data is stored only when len(compressedData) < origLength (equal size stays raw)", ok, "" if ok else "a table whose compressed size equals its size is written compressed but read back as raw bytes")
+    ln = sorted({il(enc, s_.value) for s_ in walk_no_nested(enc.node) if isinstance(s_, ast.Assign) and norm(s_.targets[0]) == "self.length"})
+    ok = len(ln) == 2 and any(x in ("self.origLength", "len(data)") for x in ln) and any(x in ("len(rawData)", "len(compressedData)", "len(compress(data, self.zlibCompressionLevel))") for x in ln)
+    ctx.ob("WOFF-RAW", enc.where, f"length fields: raw -> origLength, compressed -> length of the compressed data: {ln}", ok)
 
 
 # ---------------------------------------------------------------------------
@@ -715,9 +733,17 @@ def hmtx_trimming(ctx, repo):
     w = next((n for fx in [c] + private_callees(repo, c) for n in ast.walk(fx.node) if isinstance(n, ast.While)), None)
     ok = False
     if w is not None:
+        import re as _re
+
         t = norm(w.test)
-        floor_ = [n for n in ast.walk(w) if isinstance(n, ast.If) and norm(n.test) in ("lastIndex <= 1", "lastIndex < 2", "lastIndex == 1")]
-        ok = t == "metrics[lastIndex - 2][0] == lastAdvance" and bool(floor_) and any(isinstance(b, ast.Break) for b in floor_[0].body)
+        # name-insensitive: while M[I - 2][0] == A, where A = M[-1][0] in the same function, and an `I <= 1` floor that breaks
+        mm = _re.fullmatch(r"(\w+)\[(\w+) - 2\]\[0\] == (\w+)", t)
+        if mm:
+            M_, I_, A_ = mm.groups()
+            owner = next(fx for fx in [c] + private_callees(repo, c) if any(n is w for n in ast.walk(fx.node)))
+            a_def = [norm(st.value) for st in ast.walk(owner.node) if isinstance(st, ast.Assign) and norm(st.targets[0]) == A_]
+            floor_ = [n for n in ast.walk(w) if isinstance(n, ast.If) and norm(n.test) in (f"{I_} <= 1", f"{I_} < 2", f"{I_} == 1")]
+            ok = a_def == [f"{M_}[-1][0]"] and bool(floor_) and any(isinstance(b, ast.Break) for b in floor_[0].body)
     ctx.ob("HMTX", c.where, f"trim loop: while {norm(w.test) if w is not None else None}, stops at one record", ok, "" if ok else "the run of equal trailing advances is compared at the wrong index or can consume every record")
     sz = [norm(st.value) for st in ast.walk(d.node) if isinstance(st, ast.Assign) and norm(st.targets[0]) == "tableSize"]
     ctx.ob("HMTX", d.where, f"tableSize = {sz}", sz == ["4 * numberOfMetrics + 2 * numberOfSideBearings"])
